@@ -170,6 +170,24 @@ def run(ctx):
             if name == "s" and "ok" in rg and "ok" in rget and rget["ok"].get("ptr"):
                 if rg["ok"].get("serial") != rget["ok"].get("serial"):
                     violations.append({"sig": "getter-not-get", "what": "getter of a shared service returns another instance than Get", "files": rec["files"]})
+    # conversion to the declared type: an object that is convertible but not assignable to T (int64 -> time.Duration)
+    # comes back as T from all four getter forms, with the same value
+    ccfg = {"meta": {"pkg": "gen", "imports": {"fx": gen.FX}}, "services": {
+        "dur": {"constructor": "fx.NewI64", "type": "time.Duration", "getter": "GetDur", "must_getter": True},
+        "durc": {"constructor": "fx.NewI64", "type": "time.Duration", "getter": "GetDurC", "must_getter": True, "scope": "contextual"}}}
+    cops = [["newctx", "c1"], ["get", "dur"]]
+    for g in ("GetDur", "GetDurC"):
+        cops += [["call", g], ["call", g + "InContext", "c1"], ["call", "Must" + g], ["call", "Must" + g + "InContext", "c1"]]
+    cout, cerr = behave.run_batch(ctx, [(ccfg, cops)], tag="c13c", split=False)
+    if cerr or not cout or not cout[0]["accepted"] or cout[0]["impl"] is None:
+        violations.append({"sig": "getter-conversion", "what": "configuration with a convertible getter type does not build/run: %s" % (cerr or (cout and cout[0]["cli_out"][-300:]),), "files": cout[0]["files"] if cout else []})
+    else:
+        dist["conversion_calls"] = 0
+        for o, r in zip(cops[2:], cout[0]["impl"][2:]):
+            dist["conversion_calls"] += 1
+            ok = r.get("ok") or {}
+            if ok.get("k") != "time.Duration" or ok.get("v") != "1.5s":
+                violations.append({"sig": "getter-conversion", "what": "%s on a service whose object (int64) must be converted to the declared type time.Duration returns %r" % (o[1], r), "files": cout[0]["files"]})
     # collisions must be rejected, naming the service
     coll = [("Container", None)] + [(m, None) for m in CONTAINER_API] + [("MustX", None), ("XInContext", None), ("Same", "Same")]
     for g1, g2 in coll:
